@@ -982,6 +982,8 @@ public:
         g["extern"] = VD->isExternallyVisible();
         g["templated"] = VD->isTemplated() || isa<VarTemplateSpecializationDecl>(VD);
         g["staticmember"] = VD->isStaticDataMember();
+        // constant initialisation (no code runs at start-up; the object is usable whatever the order of dynamic initialisation is)
+        g["constinit"] = !VD->hasInit() ? !VD->getType()->isRecordType() : VD->hasConstantInitialization();
         g["file"] = D.fileOf(VD->getLocation());
         g["line"] = D.lineOf(VD->getLocation());
         if (VD->isStaticLocal())
